@@ -436,6 +436,32 @@ func c10UnwrapTotal(ctx *Ctx, r *Report) {
 	}
 	r.Check(okFloat, "flow/number-canonical", "jsonschema.unwrapJSONNumber tries Float64 unconditionally", fd.Pos(), "every number that is not an int64 becomes a float64",
 		why+": numbers it does not cover (exponent notation, integers beyond int64) reach the IR as strings / json.Number and are printed as quoted strings by every jenny")
+	// an integer can be written with an exponent (`1e6`): Int64() refuses it, Float64() makes it a float. The float is
+	// converted back when it is integral: a conversion int64(<the Float64 result>) under a math.Trunc test.
+	integral := false
+	ast.Inspect(fd.Body, func(m ast.Node) bool {
+		c, ok := m.(*ast.CallExpr)
+		if !ok || len(c.Args) != 1 {
+			return true
+		}
+		if tv, ok := info.Types[c.Fun]; !ok || !tv.IsType() {
+			return true
+		}
+		if b, ok := info.TypeOf(c).Underlying().(*types.Basic); !ok || b.Kind() != types.Int64 {
+			return true
+		}
+		if b, ok := info.TypeOf(c.Args[0]).Underlying().(*types.Basic); !ok || b.Kind() != types.Float64 {
+			return true
+		}
+		for _, cd := range enclosingConds(parents, c) {
+			if strings.Contains(exprString(cd.stmt.Cond), "math.Trunc") {
+				integral = true
+			}
+		}
+		return true
+	})
+	r.Check(integral, "flow/number-canonical", "jsonschema.unwrapJSONNumber gives integral exponent literals back as integers", fd.Pos(), "an integral float is converted to int64",
+		"a number written with an exponent is always a float64 in the IR: the default 1e6 of an integer property is printed 1000000.0 by the Python jenny and 1000000 by the Go jenny")
 	r.Check(recursesList && recursesMap, "flow/number-canonical", "jsonschema.unwrapJSONNumber recurses into lists and objects", fd.Pos(), "list and object defaults are canonicalised element-wise",
 		"unwrapJSONNumber no longer recurses into lists or objects: numbers inside list/struct defaults stay json.Number")
 }
